@@ -146,7 +146,7 @@ PROPS['C06'] = dict(
     trusted_base=['model/NQ.v; the classification function of the harness (zooWF)'],
     assumptions=['for decoders other than N-Triples/N-Quads the property is explored, not proved'],
     explanation='well-formedness theorem over all inputs for the N-Triples/N-Quads decoder model; classification oracle on every statement of every decoder',
-    level_text='Proof for N-Triples/N-Quads (every statement of every input, also before an error, is well-formed and absolute: C06_nq_wf); exploration by the classification oracle for the other nine decoders.',
+    level_text='Proof for N-Triples/N-Quads (every statement of every input, also before an error, is well-formed and absolute: C06_nq_wf; and can be written and read again unchanged: C06_nq_rewritable); exploration by the classification oracle for the other nine decoders.',
     level_note='Fixes made while building this check: empty language tags (N-Triples, N-Quads, Turtle, TriG, RDF/JSON, RDF/XML, JSON-LD), rdf:langString without tag, empty RDF/JSON datatype, Turtle/TriG collection subjects (nil subject).',
 )
 
@@ -165,7 +165,7 @@ PROPS['C15'] = dict(
     explanation='theorems: the runes (hence statements and verdict of the N-Triples/N-Quads model) are the same for every partition of the bytes into Read calls; a failing reader never yields a clean end; '
                 'model = implementation on every cut of generated documents under both reader endings; oracles over all eleven decoders',
     level_text='Proof (partial): chunking independence for all partitions of all byte strings through the rune-buffer model and the N-Triples/N-Quads decoder model (C15_runes_ignore_chunking, C15_nq_ignores_chunking), '
-               'reader failures always reported (C15_nq_io_error_reported); truncation prefix property and the other decoders by exploration of every cut point.',
+               'reader failures always reported (C15_nq_io_error_reported), and truncation (C15_nq_truncated_prefix: the statements delivered before a reader failure at any cut point are the first statements of the whole input); the other decoders by exploration of every cut point.',
     level_note='Fixes made while building this check: Turtle/TriG numeric literals without digits (a cut after a sign ended cleanly), Turtle/TriG comment at end of input hiding a pending production, N-Triples/N-Quads truncated subject.',
 )
 
@@ -304,14 +304,14 @@ PROPS['C11'] = dict(
          'IRIs of every relative form, CURIEs with declared, initial-context and default prefixes, safe CURIEs, blank node CURIEs, terms (initial terms, terms under @vocab, unresolvable tokens), several tokens per attribute, nested four deep for chaining, incomplete triples and list mappings; '
          'Microdata: trees with itemscope / itemid / itemtype / itemprop / itemref on the elements with different value rules (meta, img, audio, a, link, object, data, plain elements), nested items, absolute and vocabulary-relative names, items referenced before and after their definition and from several items, duplicate ids, properties outside items; '
          'JSON-LD: datasets written by the C10 writer into one to three script elements in head or body, next to other scripts, with the type attribute in plain, upper-case, parameterised and padded form; '
-         'each tree is written as HTML with free attribute order, quoting (double, single, none), letter case of tags and attributes, character references, comments, foreign attributes, valueless attributes, optional doctype; location and base element varied; offset capture on 1/4. '
+         'each tree is written as HTML with free attribute order, quoting (double, single, none), letter case of tags and attributes, character references, comments, foreign attributes, valueless attributes, optional doctype; location and base element varied (offset capture is the business of C16 and is off here). '
          'combined: documents carrying all three syntaxes (with blank node labels shared between them); the combined decoder must give the disjoint union of the three decoders on the same document',
     trusted_base=['model/Rdfa.v: RDFa Core 1.1 section 7.5 with the HTML+RDFa 1.1 rules for head / body / base / lang / terms in @rel, over the parsed element tree; outside the model: XMLLiteral / HTML literals, @datetime and time, rdfa:copy, xmlns: prefixes, vocabulary expansion, the full initial context',
                   'model/Microdata.v: the Microdata item model with the value rules and type-relative property names (type up to its last "/"); outside: time / meter typing, language, short names on items without a type',
                   'model/JsonLd.v for script elements; golang.org/x/net/html builds the element tree (its reading of the HTML text is exercised, not modelled); the harness HTML writer',
                   'the combined decoder is compared with the three decoders it combines, whose results the other three families check'],
     assumptions=['RDFa Core 7.5 step 8 decides by comparing the new subject with the parent object; the decoder compares with the parent subject. The two differ only where @inlist is used below an element whose object resource differs from its subject; the generator keeps @inlist out of that position (DESIGN.md, C11)',
-                 'x/net/html reads a "/" before ">" after an unquoted attribute value as a self-closing mark; the writer does not put one there'],
+                 'the harness HTML writer does not end an unquoted attribute value in "/" right before ">" (with offset capture the third-party tokenizer drops that slash: known finding F95 of C16)'],
     explanation='each decoder is run against an executable specification (the model) on grammar-directed documents, the JSON-LD reader also against the dataset each script was written from; theorems state that attribute order and attribute-free wrapper elements never change what a document denotes',
     level_text='Proof (partial): C11_rdfa_attribute_order, C11_microdata_attribute_order, C11_rdfa_plain_markup_transparent, C11_microdata_plain_markup_transparent over the models, for every element, context and state; equality of the decoders and the models by exploration (the models are the specification: a difference is a violation); the combined decoder by comparison with its parts.',
     level_note='Fixes made while building this check: RDFa @rel+@inlist+@property value, datatype xsd:string with a language in scope, undeclared safe CURIEs, CURIE expansion of @href / @src, the default prefix under @vocab, relative base href on the base element; Microdata items reached twice; script type matching.',
